@@ -56,7 +56,20 @@ def g_small(m):
     return g
 
 
+def g_wide(m):
+    """width-first units (seed, local buffer) next to ordinary ones"""
+    def g(f=200.0):
+        from sc3.synth.ugens import noise as nse_, bufio as bio
+        nse_.RandSeed.ir(1, 7)
+        buf = bio.LocalBuf(64, 1)
+        a = m['nse'].LFNoise0.ar(f)
+        b = bio.PlayBuf.ar(1, buf)
+        m['iou'].Out.ar(0, a * 0.5 + b)
+    return g
+
+
 GRAPHS = {'fan': g_fan, 'sum': g_sum, 'small': g_small}
+HIST_GRAPHS = {'sum': g_sum, 'small': g_small, 'wide': g_wide}
 
 
 def baseline(m, gname):
@@ -188,6 +201,79 @@ def failure_scenario(ctx, kind):
     ctx.discharged += 1
     ctx.note('failure:' + kind)
     return {'fail': kind, 'k': k}
+
+
+# ------------------------------------------------------------------ (2b) histories of builds, reads and failures
+
+HIST_OPS = ['build sum', 'build small', 'build wide', 'read desc', 'add', 'fail']
+
+
+def history_scenario(ctx, nops):
+    """after ANY history of successful builds, description reads (SynthDesc.new_from / SynthDef.add) and failing
+    builds: no build context is left, the lock is free, a stray unit belongs to no definition, and every graph still
+    compiles to the bytes it gave in a fresh state"""
+    m = M()
+    main, sdf, nse = m['main'], m['sdf'], m['nse']
+    from sc3.synth import synthdesc as sdc
+    rec = {'mode': j_mode(), 'kind': 'history', 'nops': nops}
+    hist = []
+
+    def data(sub):
+        return {'key': f'c20:history:{sub}', 'replay': dict(rec, sub=sub, history=list(hist))}
+
+    def build(gname):
+        return bytes(sdf.SynthDef('det', HIST_GRAPHS[gname](m)).as_bytes())
+    base = {}
+    for gname in HIST_GRAPHS:
+        try:
+            base[gname] = build(gname)
+        except Exception as e:
+            raise Violation(f'graph {gname} does not build in a fresh state: {type(e).__name__}: {e}', None, data('base'))
+    last = None
+    for i in range(nops):
+        op = HIST_OPS[ctx.choose(f'op{i}', len(HIST_OPS))]
+        hist.append(op)
+        try:
+            if op.startswith('build'):
+                gname = op.split()[1]
+                last = sdf.SynthDef('h%d' % i, HIST_GRAPHS[gname](m))
+                got = bytes(sdf.SynthDef('det', HIST_GRAPHS[gname](m)).as_bytes())
+                if got != base[gname]:
+                    raise Violation(f'graph {gname} compiles to different bytes after the history {hist} than in a '
+                                    f'fresh state ({len(got)} vs {len(base[gname])} bytes)', None, data('bytes'))
+            elif op == 'read desc':
+                if last is None:
+                    raise PathAbort('nothing built yet')
+                sdc.SynthDesc.new_from(last)
+            elif op == 'add':
+                if last is None:
+                    raise PathAbort('nothing built yet')
+                last.add()
+            else:
+                try:
+                    sdf.SynthDef('bad', lambda: m['iou'].Out.ar(0, nse.LFNoise0.kr(5)))
+                except Exception:
+                    pass
+                else:
+                    raise Violation('a control-rate signal into Out.ar was accepted', None, data('no-raise'))
+        except (PathAbort, Inconclusive, Violation):
+            raise
+        except Exception as e:
+            raise Violation(f'{op!r} raises {type(e).__name__}: {e} after the history {hist[:-1]}', None, data('raises'))
+        if main._current_synthdef is not None:
+            raise Violation(f'after {op!r} (history {hist}) the build context still points at a definition '
+                            f'({main._current_synthdef.name!r}): units created now would join it', None, data('context'))
+        if main._def_build_lock.locked():
+            raise Violation(f'after {op!r} the build lock is still held', None, data('lock'))
+        stray = nse.LFNoise0.ar(999)
+        if stray._synthdef is not None:
+            raise Violation(f'a unit created outside any build after {op!r} belongs to a definition', None, data('stray'))
+    ctx.obligations += 1
+    ctx.discharged += 1
+    ctx.note('history')
+    for h in set(hist):
+        ctx.note('hist:' + h)
+    return {'history': hist}
 
 
 # ------------------------------------------------------------------ (3) two builder threads
@@ -344,6 +430,8 @@ def job(j):
         h = lambda c: order_scenario(c, j['graph'])                              # noqa
     elif j['kind'] == 'failure':
         h = lambda c: failure_scenario(c, j['fail'])                             # noqa
+    elif j['kind'] == 'history':
+        h = lambda c: history_scenario(c, j['nops'])                             # noqa
     else:
         h = lambda c: threads_scenario(c, j['g0'], j['g1'], j['budget'])         # noqa
     st = explore(h, max_paths=j.get('max_paths', 40000), stop_on_violation=True)
@@ -380,6 +468,28 @@ def replay(rec):
         except Violation as v:
             main._current_synthdef = None
             return v.what
+        return None
+    if kind == 'history':
+        ops = list(rec.get('history', []))
+
+        class H:
+            obligations = discharged = 0
+
+            def choose(self, name, n):
+                i = int(name[2:])
+                return HIST_OPS.index(ops[i]) if i < len(ops) else 0
+
+            def note(self, s):
+                pass
+        try:
+            history_scenario(H(), len(ops))
+        except Violation as v:
+            main._current_synthdef = None
+            return v.what
+        except PathAbort:
+            return None
+        finally:
+            main._current_synthdef = None
         return None
     if kind == 'order':
         # real sets: iteration order of unit objects depends on their addresses; vary the allocation history
@@ -444,13 +554,16 @@ def main(tier, seed):
     for mode in ('nrt', 'rt'):
         jobs = [dict(mode=mode, kind='order', graph=g) for g in GRAPHS]
         jobs += [dict(mode=mode, kind='failure', fail=f) for f in fails]
+        jobs += [dict(mode=mode, kind='history', nops=3 if tier == 'quick' else 4)]
         pairs = [('small', 'sum'), ('sum', 'small')] if tier == 'quick' else \
             [(a, b) for a in GRAPHS for b in GRAPHS]
         jobs += [dict(mode=mode, kind='threads', g0=a, g1=b, budget=2 if tier == 'quick' else 3) for a, b in pairs]
         for r in run_jobs('vf.props.c20', 'job', jobs, mode):
             chk.add(mode, r)
-        chk.require_notes(mode, ['order:small', 'order:fan', 'threads', 'threads:switched'] + ['failure:' + f for f in fails])
-    chk.bounds = {'set_order': 'every permutation of every set iteration in the build of graphs with <= 9 units',
+        chk.require_notes(mode, ['order:small', 'order:fan', 'threads', 'threads:switched', 'history'] +
+                          ['hist:' + h for h in HIST_OPS] + ['failure:' + f for f in fails])
+    chk.bounds = {'histories': 'every sequence of 3 (quick) / 4 operations over ' + ', '.join(HIST_OPS) + ' (graphs with and without width-first units)',
+                  'set_order': 'every permutation of every set iteration in the build of graphs with <= 9 units',
                   'failures': fails + ['graph function failing at unit 0..5 (symbolic index)'],
                   'threads': '2 builder threads, hand-over possible at every unit creation and lock operation, <= 2 '
                              '(quick) / 3 voluntary switches per schedule', 'modes': ['nrt', 'rt'],
